@@ -105,7 +105,7 @@ def execute(case, mode):
             facts = [('shape', 'return value could not be judged: %r' % (e,))]
     elif outcome == 'crash':
         facts = [('crash:' + type(exc).__name__, '%s raised %s: %s' % (gname, type(exc).__name__, str(exc)[:200]))]
-    res = {'routine': gname, 'outcome': outcome, 'ndraws': rng.ndraws, 'forced': rng._st.forced, 'fired': rng.fired(), 'trace': rng.trace(),
+    res = {'routine': gname, 'outcome': outcome, 'ndraws': rng.ndraws, 'forced': rng._st.forced, 'fired': rng.fired(), 'trace': rng.trace(), 'tail_draws': rng.tail_draws(),
            'probes': {}, 'extra': {}}
     res['digest'] = gname + ':' + repr(sorted((k, v if not isinstance(v, list) else tuple(v)) for k, v in p.items())) + ':' + rng.digest()
     res['nontrivial'] = rng.ndraws > 0
